@@ -18,7 +18,7 @@ package coreutil
 //@ ensures [one-token-per-success] imp(ok, ev(token) == old(ev(token)) + 1)
 //@ ensures [no-token-lost-unless-cancelled] imp(!ok && !done(ctx), ev(token) == old(ev(token)))
 //@ ensures [one-token-at-most] ev(token) - old(ev(token)) <= 1 && ev(token) >= old(ev(token))
-//@ modifies w.overdueDuration, w.lastNow, w.timer, leftOf[w.sched], timerDeadline, ev(token)
+//@ modifies w.overdueDuration, w.lastNow, w.timer, leftOf[w.sched], startedOf[w.sched], timerDeadline, ev(token)
 
 //@ func (w *Waiter) IsSlowDown
 //@ modifies nothing
